@@ -162,4 +162,56 @@ theorem mono_wasteSeaweed_partial (i : Inp K) (w' : K) (hw' : w' ≤ i.wSeaweed)
     ∃ x', Feasible (buildLP { i with wSeaweed := w' } .toHumans) x' ∧ x .objective ≤ x' .objective :=
   Proofs.Perturb.mono_wasteSeaweed_partial i w' hw' hw hb hkc hlim x h hcaps
 
+/-! ## simultaneous increases
+
+The single-supply statements compose: each one maps a feasible point of the smaller instance to a
+feasible point of the larger one without lowering the objective, and the next perturbation is applied
+to the already-perturbed input.  Stated here for the two industrial foods together and for industrial
+foods together with milk, fish and greenhouse output; any other finite combination follows the same way. -/
+
+theorem mono_scp_cs (i : Inp K) (s' c' : List K) (hs : SeriesLe i.scp s') (hc : SeriesLe i.cs c')
+    (x : Var → K) (h : Feasible (buildLP i .toHumans) x) :
+    ∃ x', Feasible (buildLP { i with scp := s', cs := c' } .toHumans) x' ∧ x .objective ≤ x' .objective := by
+  obtain ⟨x1, h1, o1⟩ := mono_scp i s' hs x h
+  obtain ⟨x2, h2, o2⟩ := mono_cs { i with scp := s' } c' hc x1 h1
+  exact ⟨x2, h2, le_trans o1 o2⟩
+
+theorem mono_scp_cs_constants (i : Inp K) (s' c' milk' fish' gh' : List K)
+    (hs : SeriesLe i.scp s') (hc : SeriesLe i.cs c') (hm : SeriesLe i.milk milk')
+    (hf : SeriesLe i.fish fish') (hg : SeriesLe i.greenhouse gh') (hb : 0 < i.billionKcalsNeeded)
+    (hlim : 0 ≤ i.limSwH ∧ 0 ≤ i.limScpH ∧ 0 ≤ i.limCsH)
+    (x : Var → K) (h : Feasible (buildLP i .toHumans) x) :
+    ∃ x', Feasible (buildLP { i with scp := s', cs := c', milk := milk', fish := fish', greenhouse := gh' }
+        .toHumans) x' ∧ x .objective ≤ x' .objective := by
+  obtain ⟨x1, h1, o1⟩ := mono_scp_cs i s' c' hs hc x h
+  obtain ⟨x2, h2, o2⟩ := mono_constants { i with scp := s', cs := c' } milk' fish' gh' hm hf hg hb hlim x1 h1
+  exact ⟨x2, h2, le_trans o1 o2⟩
+
+/-- every supply the property names raised at once: initial stock, outdoor crop production, both
+    industrial foods, meat (total, monthly caps, monthly slaughter), milk, fish and greenhouse output.
+    The hypotheses are those of the single-supply statements (they concern fields none of the
+    perturbations touch). -/
+theorem mono_all_supplies (i : Inp K) (d : K) (prod' s' c' cap' sl' milk' fish' gh' : List K) (total' : K)
+    (hd : 0 ≤ d) (hp : SeriesLe i.cropProd prod') (hs : SeriesLe i.scp s') (hc : SeriesLe i.cs c')
+    (ht : i.meatSummed ≤ total') (hcap : SeriesLe i.maxCulled cap') (hsl : SeriesLe i.slaughtered sl')
+    (hm : SeriesLe i.milk milk') (hf : SeriesLe i.fish fish') (hg : SeriesLe i.greenhouse gh')
+    (hws0 : 0 ≤ i.wStored) (hws : i.wStored < 100) (hwc0 : 0 ≤ i.wCrop) (hwc : i.wCrop < 100)
+    (hN : 2 ≤ i.nmonths) (hb : 0 < i.billionKcalsNeeded)
+    (hlim : 0 ≤ i.limSwH ∧ 0 ≤ i.limScpH ∧ 0 ≤ i.limCsH)
+    (x : Var → K) (h : Feasible (buildLP i .toHumans) x) :
+    ∃ x', Feasible (buildLP
+        { i with
+            storedInitial := i.storedInitial + d, cropProd := prod', scp := s', cs := c',
+            meatSummed := total', maxCulled := cap', slaughtered := sl',
+            milk := milk', fish := fish', greenhouse := gh' } .toHumans) x' ∧ x .objective ≤ x' .objective := by
+  obtain ⟨x1, h1, o1⟩ := mono_storedInitial i d hd hws0 hws hN hb.le hlim x h
+  obtain ⟨x2, h2, o2⟩ := mono_cropProd { i with storedInitial := i.storedInitial + d } prod' hp hwc0 hwc hN hb.le hlim x1 h1
+  obtain ⟨x3, h3, o3⟩ := mono_scp_cs_constants
+    { i with storedInitial := i.storedInitial + d, cropProd := prod' } s' c' milk' fish' gh' hs hc hm hf hg hb hlim x2 h2
+  obtain ⟨x4, h4, o4⟩ := mono_meat
+    { i with
+        storedInitial := i.storedInitial + d, cropProd := prod', scp := s', cs := c',
+        milk := milk', fish := fish', greenhouse := gh' } total' cap' sl' ht hcap hsl x3 h3
+  exact ⟨x4, h4, le_trans o1 (le_trans o2 (le_trans o3 o4))⟩
+
 end Allfed.C12
